@@ -169,6 +169,8 @@ class Engine(Interp):
             if ms.asked is not None:
                 ms.asked = tuple((pos(lo), pos(hi)) for lo, hi in ms.asked)
                 ms.asked_carry = None
+        if s2.aux:
+            s2.aux = tuple((pos(h), pos(l), pos(d)) for h, l, d in s2.aux)
         for k in sorted(s2.ghost, key=str):
             g = s2.ghost[k]
             s2.ghost[k] = (pos(g[0]), g[1])
@@ -193,7 +195,7 @@ class Engine(Interp):
             mp.append((mid, ms.len, ms.cap, ms.holes, ms.extras, ms.hole_rng, ms.extra_rng, ms.contents,
                        ms.exempt, ms.dead, ms.owned_extras, ms.examined, ms.pending, ms.asked))
         return (fr, ob, tuple(mp), st.unwinding, tuple(sorted(st.pairs.items(), key=str)),
-                tuple(sorted(((k, g[1]) for k, g in st.ghost.items()), key=str)))
+                tuple(sorted(((k, g[1]) for k, g in st.ghost.items()), key=str)), st.aux)
 
     def loop_join(self, table, key, st):
         """at a loop head: returns the state to continue with, or None when subsumed"""
